@@ -380,7 +380,49 @@ func normThreshold(op token.Token, c int64) (int64, int, bool) {
 }
 
 // getLengthScheme extracts the scheme of a GetLength method: returns len+short on one edge and len+long on the other.
+// The computation may sit in the method itself or in a helper that the method calls with len(value) (one level).
 func getLengthScheme(f *ssa.Function) (prefixScheme, string) {
+	isFieldLen := func(v ssa.Value) bool {
+		val, isLen := lenOfValue(v)
+		if !isLen {
+			return false
+		}
+		_, fn, _, ok := loadedField(val)
+		return ok && fn == "value"
+	}
+	s, why := lengthSchemeOf(f, isFieldLen)
+	if why == "" {
+		return s, ""
+	}
+	// helper form: return h(len(x.value)) on the variable-length path
+	var res prefixScheme
+	resWhy := why
+	eachInstr(f, func(in ssa.Instruction) {
+		rt, ok := in.(*ssa.Return)
+		if !ok || len(rt.Results) != 1 {
+			return
+		}
+		c, ok := rt.Results[0].(*ssa.Call)
+		if !ok || c.Call.StaticCallee() == nil || c.Call.StaticCallee().Blocks == nil {
+			return
+		}
+		h := c.Call.StaticCallee()
+		for idx, a := range c.Call.Args {
+			if isFieldLen(a) && idx < len(h.Params) {
+				prm := h.Params[idx]
+				hs, hw := lengthSchemeOf(h, func(v ssa.Value) bool { return v == ssa.Value(prm) })
+				if hw == "" {
+					res, resWhy = hs, ""
+				} else {
+					resWhy = "helper " + h.Name() + ": " + hw
+				}
+			}
+		}
+	})
+	return res, resWhy
+}
+
+func lengthSchemeOf(f *ssa.Function, isLen func(ssa.Value) bool) (prefixScheme, string) {
 	s := prefixScheme{Marker: -1, Max: -1}
 	found := false
 	why := "no comparison of len(value) with a constant found"
@@ -393,12 +435,8 @@ func getLengthScheme(f *ssa.Function) (prefixScheme, string) {
 		if !ok {
 			return
 		}
-		val, isLen := lenOfValue(b.X)
 		c, isC := constInt(b.Y)
-		if !isLen || !isC {
-			return
-		}
-		if _, fn, _, ok := loadedField(val); !ok || fn != "value" {
+		if !isLen(b.X) || !isC {
 			return
 		}
 		t, ss, ok := normThreshold(b.Op, c)
@@ -409,7 +447,7 @@ func getLengthScheme(f *ssa.Function) (prefixScheme, string) {
 			for _, x := range blk.Instrs {
 				if rt, ok := x.(*ssa.Return); ok && len(rt.Results) == 1 {
 					if add, ok := rt.Results[0].(*ssa.BinOp); ok && add.Op == token.ADD {
-						if _, isL := lenOfValue(add.X); isL {
+						if isLen(add.X) {
 							return constInt(add.Y)
 						}
 					}
